@@ -36,7 +36,7 @@ class C02(Prop):
     components = {"real": ["baize.asgi.responses.FileResponse (handle_all/single/several, fake_sendfile, zero-copy)", "baize.wsgi.responses.FileResponse",
                            "baize.responses.FileResponseMixin", "baize.concurrency.run_in_threadpool", "os.open/lseek/read on real temp files"],
                   "stub": ["ASGI server incl. zero-copy reader", "WSGI server", "event loop clock/selector, executor inlined at seeded instants", "random boundary fixed by random.seed"]}
-    hard_probes = ("multipart_206", "single_206", "status_416", "status_400", "if_range_match", "if_range_mismatch", "zerocopy_message", "executor_latency", "head_compared", "file_modified_after_validators_were_handed_out")
+    hard_probes = ("multipart_206", "single_206", "status_416", "status_400", "if_range_match", "if_range_mismatch", "zerocopy_message", "executor_latency", "head_compared", "file_modified_after_validators_were_handed_out", "caller_shares_one_headers_object")
     quick_runs = 150000
     thorough_runs = 2000000
     batch = 500
@@ -46,11 +46,11 @@ class C02(Prop):
         self.fs = simfs.install(workdir + "/fs")
         self.have = {}
 
-    def file_for(self, size):
-        rel = "c02/%d.bin" % size
-        if size not in self.have:
-            self.fs.write(rel, pattern(size), mtime=1_600_000_000.0 + size, ctime=1_600_000_000.0 + size)
-            self.have[size] = True
+    def file_for(self, size, frac=0.0):
+        rel = "c02/%d-%d.bin" % (size, int(frac * 1e7))
+        if (size, frac) not in self.have:
+            self.fs.write(rel, pattern(size), mtime=1_600_000_000.0 + size + frac, ctime=1_600_000_000.0 + size + frac)
+            self.have[(size, frac)] = True
         return rel
 
     def gen_plan(self, t):
@@ -68,7 +68,9 @@ class C02(Prop):
                 "iface": t.choice(["wsgi", "asgi", "asgi-zc"]), "lat": t.choice(["fast", "mixed"]), "ctype": t.choice([None, None, "text/x-a", "application/octet-stream"]),
                 # history: the file is rewritten (same size, other bytes, mtime moved by this many seconds) after the client
                 # obtained its validators - they are then no longer the file's CURRENT validators
-                "modify": t.choice([None, None, None, None, 0.3, 1.0, 5.0])}
+                "modify": t.choice([None, None, None, None, 0.3, 1.0, 5.0]),
+                # sub-second part of the file's mtime (HTTP dates round it) and a caller-owned Headers object shared by all responses of the run
+                "mtime_frac": t.choice([0.0, 0.0, 0.5, 0.25, 0.9999996, 0.999999]), "shared_headers": t.draw(3) == 0}
 
     def nontrivial(self, plan, ctx, variant):
         return plan["range"] is not None and (ctx.notes.get("emissions", 0) >= 3 or bool(ctx.faults))
@@ -80,7 +82,7 @@ class C02(Prop):
         if plan["iface"] == "wsgi":
             from baize.wsgi import FileResponse
             peer = WsgiPeer(ctx, ctx.sched, req)
-            peer.run(FileResponse(self.fs.path(rel), content_type=plan["ctype"], chunk_size=plan["chunk"]))
+            peer.run(FileResponse(self.fs.path(rel), self._shared, content_type=plan["ctype"], chunk_size=plan["chunk"]))
             if peer.exc is not None or peer.close_exc is not None:
                 return {"exc": peer.exc or peer.close_exc}
             return {"status": peer.status, "headers": peer.header_list(), "body": peer.body, "emissions": peer.n_items, "exc": None}
@@ -89,7 +91,7 @@ class C02(Prop):
 
         async def scenario(loop):
             peer = AsgiHttpPeer(loop, ctx, ctx.sched, req, zerocopy=(plan["iface"] == "asgi-zc"), send_lats=lats)
-            resp = FileResponse(self.fs.path(rel), content_type=plan["ctype"], chunk_size=plan["chunk"])
+            resp = FileResponse(self.fs.path(rel), self._shared, content_type=plan["ctype"], chunk_size=plan["chunk"])
             await resp(peer.scope, peer.receive, peer.send)
             peer.monitor.on_return()
             return {"status": peer.status, "headers": peer.header_list(), "body": peer.body, "emissions": peer.send_calls, "exc": None, "complete": peer.complete}
@@ -102,9 +104,15 @@ class C02(Prop):
 
     def execute(self, plan, ctx, variant=None):
         size = plan["size"]
-        rel = self.file_for(size)
+        frac = plan.get("mtime_frac", 0.0)
+        rel = self.file_for(size, frac)
         content = pattern(size)
-        base_mtime = 1_600_000_000.0 + size
+        base_mtime = 1_600_000_000.0 + size + frac
+        self._shared = None
+        if plan.get("shared_headers"):
+            from baize.datastructures import Headers
+            self._shared = Headers({"x-site": "1"})
+            ctx.probe("caller_shares_one_headers_object")
         if plan.get("modify") and size > 0:
             rel = "c02/mod.bin"
             self.fs.write(rel, content, mtime=base_mtime, ctime=base_mtime)
@@ -178,6 +186,15 @@ class C02(Prop):
         elif sorted(head["headers"]) != sorted(get["headers"]):
             fail("head-headers-differ|%s" % get["status"], "GET %r HEAD %r" % (sorted(get["headers"]), sorted(head["headers"])))
         self._judge(plan, ctx, fail, get, content, honoured)
+        if self._shared is not None:
+            # a later plain request built with the same caller-owned Headers object: nothing of the earlier responses may show
+            last = self._request(plan, ctx, "GET", [], rel)
+            if last.get("hang") or last.get("exc"):
+                fail("plain-get-after-history-failed", repr(last.get("hang") or last.get("exc")))
+            elif last["status"] != 200 or last["body"] != content or "content-range" in dict(last["headers"]) or dict(last["headers"]).get("content-length") != str(len(content)):
+                fail("plain-get-after-history-differs", "status %s, %d bytes, content-range %r, content-type %r" % (last["status"], len(last["body"]), dict(last["headers"]).get("content-range"), dict(last["headers"]).get("content-type")))
+            if dict(self._shared) != {"x-site": "1"}:
+                fail("caller-owned-headers-object-modified", repr(dict(self._shared)))
 
     def _judge(self, plan, ctx, fail, get, content, honoured):
         size = len(content)
@@ -189,6 +206,9 @@ class C02(Prop):
         if st in (200, 206) and cl is None:
             fail("content-length-missing|%s" % st, "")
         res = rg.resolve(plan["range"], size) if honoured else {"kind": "absent"}
+
+        if st == 200 and "content-range" in h:
+            fail("200-carries-content-range", repr(h.get("content-range")))
 
         def is_whole():
             return st == 200 and body == content
